@@ -480,7 +480,10 @@ pub fn c16(rep: &mut Report) {
             let mut n = 0u64;
             let x_store = w.conn.stored();
             let x_handled = w.conn.handled();
-            for rm in if ver == Ver::V5 { vec![None, Some(1u16)] } else { vec![None] } {
+            // (Receive Maximum of the resuming connection, a connection attempt that dies before the CONNACK first)
+            let mut variants: Vec<(Option<u16>, bool)> = if ver == Ver::V5 { vec![(None, false), (Some(1u16), false)] } else { vec![(None, false)] };
+            variants.push((None, true));
+            for (rm, failed_first) in variants {
                 n += 1;
                 let r = guarded(|| {
                     let mut a = w.conn.clone();
@@ -509,8 +512,24 @@ pub fn c16(rep: &mut Report) {
                             direct.push(format!("restored id {id} can be registered again"));
                         }
                     }
-                    let ta = resume(&mut a, ver, as_client, rm);
-                    let tb = resume(&mut b, ver, as_client, rm);
+                    let mut ta: Trace = vec![];
+                    let mut tb: Trace = vec![];
+                    if failed_first {
+                        // the first attempt to resume never gets established (transport lost before the CONNACK):
+                        // it must leave the session - original or restored - as it was
+                        for (c, t) in [(&mut a, &mut ta), (&mut b, &mut tb)] {
+                            let cp = ConnProf::basic(false);
+                            if as_client {
+                                send(c, t, cp.ap(ver));
+                            } else {
+                                recv(c, t, cp.ap(ver));
+                            }
+                            let e = c.notify_closed();
+                            t.push(("notify_closed() before the CONNACK".into(), e));
+                        }
+                    }
+                    ta.extend(resume(&mut a, ver, as_client, rm));
+                    tb.extend(resume(&mut b, ver, as_client, rm));
                     let sa = a.snap();
                     let sb = b.snap();
                     // absolute clauses on the restored object: retransmission = the export, in order;
@@ -575,7 +594,7 @@ pub fn c16(rep: &mut Report) {
                             out.push(Violation { rule: "c16.restored-behaviour".into(), sig: format!("c16.restored-behaviour|{kind}"), detail: format!("[{name}] {d}"), config: name.clone(), history: hist.clone() });
                         }
                         if let Some((step, x, y)) = first_diff(&ta, &tb) {
-                            out.push(Violation { rule: "c16.resume-events".into(), sig: format!("c16.resume-events|{}|rm={rm:?}", step.split(' ').take(2).collect::<Vec<_>>().join(" ")), detail: format!("[{name}] resume (Receive Maximum {rm:?}): at '{step}' the original returns {x:?}, the restored object {y:?}"), config: name.clone(), history: hist.clone() });
+                            out.push(Violation { rule: "c16.resume-events".into(), sig: format!("c16.resume-events|{}|rm={rm:?}{}", step.split(' ').take(2).collect::<Vec<_>>().join(" "), if failed_first { "|after a failed attempt" } else { "" }), detail: format!("[{name}] resume (Receive Maximum {rm:?}{}): at '{step}' the original returns {x:?}, the restored object {y:?}", if failed_first { ", after a connection attempt that was closed before the CONNACK" } else { "" }), config: name.clone(), history: hist.clone() });
                         } else if sa != sb {
                             let (names, text) = debug_diff(&sa, &sb);
                             out.push(Violation { rule: "c16.state".into(), sig: format!("c16.state|{}", names.join("+")), detail: format!("[{name}] after resuming, the restored object differs from the original in {names:?}: {text}"), config: name.clone(), history: hist.clone() });
@@ -688,7 +707,15 @@ fn c16_malformed(rep: &mut Report) {
                 a.restore_packets(full.iter().map(|k| mk(*k)).collect());
                 let mut b = ConnBox::<u16>::new(RoleK::Client, Some(ver));
                 b.restore_packets(clean.iter().map(|k| mk(*k)).collect());
-                (full, clean, a.snap(), b.snap())
+                let (mut sa, sb) = (a.snap(), b.snap());
+                if clean.is_empty() && !full.is_empty() {
+                    // an export whose entries are all unusable still declares a persistent session (the mark does
+                    // not depend on the entries, so that an auto-detecting server - which cannot judge them yet -
+                    // and a fixed-version server agree); everything else must be as if nothing had been restored
+                    sa.need_store = sb.need_store;
+                    sa.need_store_before_connect = sb.need_store_before_connect;
+                }
+                (full, clean, sa, sb)
             });
             match r {
                 Err(m) => rep.violation(Violation { rule: "c16.malformed-export".into(), sig: format!("c16.malformed-export|{}", crate::util::panic_sig(&m)), detail: format!("malformed export {sq:?}: {m}"), config: "c16 malformed exports".into(), history: vec![json!(format!("restore entries {sq:?} of [q1 id1, q2 id1, q0, PUBREL id1, q1 id2] ({ver:?})"))] }),
